@@ -160,6 +160,10 @@ class Producer(object):
             _logger.debug('Producer stopping.')
             self._running = False
 
+    def reset(self):
+        '''Forget a stop request so that the producer can be run again.'''
+        self._stop_requested = False
+
 
 class PipelineState(enum.Enum):
     stopped = 'stopped'
@@ -191,6 +195,9 @@ class Pipeline(object):
     def process(self):
         if self._state == PipelineState.stopped:
             self._state = PipelineState.running
+            # A stop request left over from the previous run (the pipeline
+            # stops its producer when the source runs dry) is not for this one.
+            self._producer.reset()
             self._producer_task = asyncio.get_event_loop().create_task(self._run_producer_wrapper())
 
             if self._concurrency:
